@@ -136,6 +136,38 @@ def scopeExprs (visible : RefId → Bool) : List Expr → List Expr
   | e :: es => scopeExpr visible e :: scopeExprs visible es
 end
 
+/-! Cells that do not exist (deleted, not created yet).  `dead c = some byPath` says that no cells
+`c` exists and how the formula spells it: by global name (`NameError`) or through an attribute
+path `Ch.c` / `_space.parent.c` (`AttributeError`).  Python fails when it LOADS the callee, before
+any argument is evaluated: the call is made with no arguments (the model gives a missing cells
+arity 0), `evalNode` answers it with the error of an unbound name, and a spelling by path turns
+that into `AttributeError`. -/
+mutual
+def deadExpr (dead : CellId → Option Bool) : Expr → Expr
+  | .lit i => .lit i
+  | .none => .none
+  | .param i => .param i
+  | .add a b => .add (deadExpr dead a) (deadExpr dead b)
+  | .sub a b => .sub (deadExpr dead a) (deadExpr dead b)
+  | .mul a b => .mul (deadExpr dead a) (deadExpr dead b)
+  | .lt a b => .lt (deadExpr dead a) (deadExpr dead b)
+  | .ite c a b => .ite (deadExpr dead c) (deadExpr dead a) (deadExpr dead b)
+  | .call c args =>
+    match dead c with
+    | none => .call c (deadExprs dead args)
+    | some false => .call c []
+    | some true => .try_ (.call c []) (.user kName) (.raise kAttr)
+  | .readN r => .readN r
+  | .readA r => .readA r
+  | .raise k => .raise k
+  | .try_ a c b => .try_ (deadExpr dead a) c (deadExpr dead b)
+  | .tryRe a c b => .tryRe (deadExpr dead a) c (deadExpr dead b)
+  | .tryFin a b => .tryFin (deadExpr dead a) (deadExpr dead b)
+def deadExprs (dead : CellId → Option Bool) : List Expr → List Expr
+  | [] => []
+  | e :: es => deadExpr dead e :: deadExprs dead es
+end
+
 /-! The blocks of `tryRe` / `tryFin` are modelled for bodies that do not handle exceptions
 themselves: after a `try … except` INSIDE such a block has swallowed a failure of its own, Python
 goes back to the exception the block is handling, whereas the model's `curExc` stays with the
